@@ -121,9 +121,62 @@ def run(prop, tier):
     # design level: the specification's own rewriting system (spec/Simplify.tla), model-checked by TLC
     import design_simplify
     design_simplify.run(prop, tier, rep)
-    jobs = []
     fam_counts = {}
-    next_id = 0
+    counts = {}
+    other = {}
+    state = {"next_id": 0}
+
+    def judge_batch(jobs, recs):
+        """TLC validates one family's recorded pairs; verdicts are folded into the report (one family at a time keeps
+        the memory of the thorough tiers bounded by the largest family)"""
+        vrecs = [{"id": r["id"], "pass": "simplify", "in": r["in"], "out": r["out"], "exc": r["exc"],
+                  "flags": {"compiles": r["flags"]["compiles"], "shape": r["flags"]["shape"]}} for r in recs]
+        if not vrecs:
+            return
+        verdicts, vst = common.validate(prop, "simplify", "TracePass", vrecs)
+        rep.add_tlc(vst)
+        rep.traces += len(vrecs)
+        rep.evaluations += len(vrecs)
+        byid = {r["id"]: r for r in recs}
+        jobby = {j[0]: j for j in jobs}
+        for cid, v in sorted(verdicts.items()):
+            key = v["v"] if v["v"] != "REJECT" else "REJECT:" + v["clause"]
+            counts[key] = counts.get(key, 0) + 1
+            r = byid[cid]
+            if v["v"] == "ACCEPT" and v["nontrivial"] and v["changed"]:
+                rep.nontrivial += 1
+                if prop != "C14" or count_kind(r["in"], PACK) > 0:
+                    rep.sample({"in": codec.src(r["in"]),
+                                "out": codec.src(r["out"]) if r["exc"] == "" else r["exc"]})
+            if v["v"] == "REJECT":
+                owner = OWNER.get(v["clause"], prop)
+                # in the projection family "semantically intact" is part of C18 itself
+                if owner == prop or (prop == "C18" and v["clause"] in ("Preserve", "Scoped")):
+                    replay = {"property": prop, "pass": jobby[cid][1], "case": jobby[cid][2],
+                              "flags": jobby[cid][3], "source": codec.src(r["in"]),
+                              "observed": (codec.src(r["out"]) if r["exc"] == "" and r["flags"]["compiles"]
+                                           else (r["exc"] or "malformed output")),
+                              "verdict": v}
+                    rep.reject(cid, v["clause"], replay)
+                else:
+                    other[owner + ":" + v["clause"]] = other.get(owner + ":" + v["clause"], 0) + 1
+
+    pending = []        # jobs not yet replayed and judged
+    FLUSH = 60000       # programs per replay + validation batch: bounds the memory of the thorough tiers
+
+    def flush():
+        if pending:
+            judge_batch(pending, replay_passes.run_many(pending))
+            del pending[:]
+
+    def do_family(name, progs, total, budget, exhaustive, pass_name):
+        for p in progs:
+            pending.append((state["next_id"], pass_name, p, {"shape": prop == "C14"}))
+            state["next_id"] += 1
+        fam_counts[name] = {"generated": total, "replayed": len(progs), "budget": budget, "exhaustive": exhaustive}
+        if len(pending) >= FLUSH:
+            flush()
+
     for (name, fam, budget, keep, pass_name) in plan:
         progs, st = common.gen_programs(prop, name, fam, budget)
         rep.add_tlc(st)
@@ -136,12 +189,8 @@ def run(prop, tier):
             prio = [p for p in progs if priority(prop, fam, p)]
             rest = [p for p in progs if not priority(prop, fam, p)]
             progs = prio + common.subsample_stratified(rest, max(0, keep - len(prio)), salt=name)
-        fam_counts[name] = {"generated": total, "replayed": len(progs), "budget": budget,
-                            "exhaustive": keep is None or total <= keep}
-        for p in progs:
-            flags = {"shape": prop == "C14"}
-            jobs.append((next_id, pass_name, p, flags))
-            next_id += 1
+        do_family(name, progs, total, budget, keep is None or total <= keep, pass_name)
+        del progs
     nrand, rb = PLANS[prop]["random"][tier]
     if nrand:
         progs, st = common.gen_programs(
@@ -152,59 +201,25 @@ def run(prop, tier):
         if prop == "C14":
             progs = [p for p in progs if has_kind(p, PACK)]
         progs = common.subsample_stratified(progs, nrand, salt="rand")
-        fam_counts["random"] = {"generated": total, "replayed": len(progs), "budget": rb,
-                                "exhaustive": False}
-        for p in progs:
-            jobs.append((next_id, "simplify", p, {"shape": prop == "C14"}))
-            next_id += 1
-
-    recs = replay_passes.run_many(jobs)
+        do_family("random", progs, total, rb, False, "simplify")
     # wild traces: the simplifier calls the repository's own tests make, recorded under FUNC_ADL_VERIF=1
-    nwild = 0
     if prop in ("C02", "C18"):
         import wild
-        for w in wild.pass_records(prop, "simplify", next_id):
+        jobs = list(pending)
+        recs = replay_passes.run_many(pending) if pending else []
+        del pending[:]
+        for w in wild.pass_records(prop, "simplify", state["next_id"]):
             if w["in"]["k"] in ("opaque", "malformed") or (w["exc"] == "" and w["out"]["k"] in ("opaque", "malformed")):
                 continue
-            w["id"] = next_id
-            jobs.append((next_id, "simplify", w["in"], {"shape": False}))
-            recs.append({"id": next_id, "in": w["in"], "out": w["out"], "exc": w["exc"],
+            nid = state["next_id"]
+            state["next_id"] += 1
+            jobs.append((nid, "simplify", w["in"], {"shape": False}))
+            recs.append({"id": nid, "in": w["in"], "out": w["out"], "exc": w["exc"],
                          "flags": {"compiles": w["flags"]["compiles"], "shape": False}})
-            next_id += 1
-            nwild += 1
         fam_counts["wild (repository tests under the recorder)"] = {
-            "generated": nwild, "replayed": nwild, "budget": 0, "exhaustive": True, "suite": wild.suite_summary()}
-    # validation records: drop what TLC does not need
-    vrecs = [{"id": r["id"], "pass": "simplify", "in": r["in"], "out": r["out"], "exc": r["exc"],
-              "flags": {"compiles": r["flags"]["compiles"], "shape": r["flags"]["shape"]}} for r in recs]
-    verdicts, vst = common.validate(prop, "simplify", "TracePass", vrecs)
-    rep.add_tlc(vst)
-    rep.traces = len(vrecs)
-    rep.evaluations = len(vrecs)
-    byid = {r["id"]: r for r in recs}
-    counts = {}
-    other = {}
-    for cid, v in sorted(verdicts.items()):
-        key = v["v"] if v["v"] != "REJECT" else "REJECT:" + v["clause"]
-        counts[key] = counts.get(key, 0) + 1
-        r = byid[cid]
-        if v["v"] == "ACCEPT" and v["nontrivial"] and v["changed"]:
-            rep.nontrivial += 1
-            if prop != "C14" or count_kind(r["in"], PACK) > 0:
-                rep.sample({"in": codec.src(r["in"]),
-                            "out": codec.src(r["out"]) if r["exc"] == "" else r["exc"]})
-        if v["v"] == "REJECT":
-            owner = OWNER.get(v["clause"], prop)
-            # in the projection family "semantically intact" is part of C18 itself
-            if owner == prop or (prop == "C18" and v["clause"] in ("Preserve", "Scoped")):
-                replay = {"property": prop, "pass": jobs[cid][1], "case": jobs[cid][2],
-                          "flags": jobs[cid][3], "source": codec.src(r["in"]),
-                          "observed": (codec.src(r["out"]) if r["exc"] == "" and r["flags"]["compiles"]
-                                       else (r["exc"] or "malformed output")),
-                          "verdict": v}
-                rep.reject(cid, v["clause"], replay)
-            else:
-                other[owner + ":" + v["clause"]] = other.get(owner + ":" + v["clause"], 0) + 1
+            "generated": len(recs), "replayed": len(recs), "budget": 0, "exhaustive": True, "suite": wild.suite_summary()}
+        judge_batch(jobs, recs)
+    flush()
     rep.extra.update(families=fam_counts, verdicts=counts, rejections_owned_by_other_properties=other)
     rep.rule = ("programs = complete derivations of spec/Grammar.tla (sorted, scoped, budgeted; TLC BFS "
                 "exhaustive per family/budget, plus seeded -simulate walks); each is run through the real "
